@@ -8,7 +8,7 @@ use {
   ixlib::env::Flags,
   ord::{Inscription, InscriptionId, wallet::batch},
   ordinals::{Rune, SatPoint, SpacedRune},
-  std::{collections::BTreeMap, fmt::Write as _},
+  std::{collections::{BTreeMap, BTreeSet}, fmt::Write as _},
   wx2::*,
 };
 
@@ -411,6 +411,7 @@ fn classify(msg: &str) -> &'static str {
     ("reinscribe flag set", "not-a-reinscription"),
     ("wallet contains no cardinal utxos", "no-cardinals"),
     ("not enough cardinal utxos", "not-enough-cardinals"),
+    ("enough cardinal UTXOs", "not-enough-cardinals"),
     ("not in wallet", "not-in-wallet"),
     ("insufficient funds", "insufficient-funds"),
     ("panic:", "panic"),
@@ -421,6 +422,122 @@ fn classify(msg: &str) -> &'static str {
     }
   }
   "other"
+}
+
+/// The planner's view of the wallet at the commit guard (C21, `OrdModel.Wallet.BatchCommit`), read
+/// from the node and the REAL index the way `Wallet::build` + `Batch::run` assemble it:
+/// `utxos` = `listunspent` (wallet scripts, not locked) ∪ `listlockunspent`; `wallet_inscriptions`'
+/// keys = the satpoints of every inscription on those outputs; `runic_utxos` = outputs with a rune
+/// balance.  Kept in `BTreeMap<OutPoint, _>` / `BTreeSet<SatPoint>`, i.e. in the order (Rust's `Ord`
+/// on `OutPoint` / `SatPoint`) in which `create_batch_transactions` iterates.
+struct GuardView {
+  /// value, locked at the node, runic
+  utxos: BTreeMap<OutPoint, (u64, bool, bool)>,
+  ins: BTreeSet<SatPoint>,
+}
+
+fn guard_view(w: &World) -> GuardView {
+  let entries: Vec<(OutPoint, u64, ScriptBuf, bool)> = {
+    let state = w.node.core.state();
+    state
+      .utxos
+      .iter()
+      .map(|(op, v)| (*op, v.to_sat(), state.transactions[&op.txid].output[op.vout as usize].script_pubkey.clone(), state.locked.contains(op)))
+      .collect()
+  };
+  let mut utxos = BTreeMap::new();
+  let mut ins = BTreeSet::new();
+  for (op, value, script, locked) in entries {
+    if !(locked || is_wallet_script(w, &script)) {
+      continue;
+    }
+    let runic = w.index().get_rune_balances_for_output(op).unwrap().map(|m| !m.is_empty()).unwrap_or(false);
+    utxos.insert(op, (value, locked, runic));
+    for (sp, _) in w.index().get_inscriptions_on_output_with_satpoints(op).unwrap().unwrap_or_default() {
+      ins.insert(sp);
+    }
+  }
+  GuardView { utxos, ins }
+}
+
+/// `batch.guard <reinscribe> <explicit satpoint|none> <utxos> <inscribed satpoints> <observe>`;
+/// utxo token `txid:vout/value/<locked><runic>` where locked = in the `locked_utxos` set the planner
+/// gets (`Batch::run`: the node's locked outputs plus the outputs a `satpoints` batch names)
+fn guard_request(c: &Case, v: &GuardView, observe: &str) -> String {
+  format!(
+    "batch.guard {} {} {} {} {observe}",
+    u8::from(c.reinscribe),
+    c.same_sat_satpoint.map(|sp| sp.to_string()).unwrap_or("none".into()),
+    nums(v.utxos.iter().map(|(op, (value, locked, runic))| {
+      let named = c.mode == Mode::SatPoints && c.satpoints.iter().any(|(o, _)| o == op);
+      format!("{op}/{value}/{}{}", u8::from(*locked || named), u8::from(*runic))
+    })),
+    nums(v.ins.iter()),
+  )
+}
+
+/// Where the planner's checks stand relative to the guard (plan.rs / batch_command.rs, in order):
+/// `Batch::run`: File::load, missing delegates, `get_parent_info` ("parent … not in wallet"),
+/// `File::inscriptions` ("<satpoint> not in wallet"), `check_etching`; `create_batch_transactions`:
+/// invariant asserts, duplicate reveal input — all BEFORE; then satpoint selection + loop +
+/// "reinscribe flag set" = the GUARD; then runestone size, `TransactionBuilder` (dust, not enough
+/// cardinals, outgoing satpoint not in wallet / out of range, additional inscriptions, duplicate
+/// address, overflow), reveal dust, reveal weight, and the RPC calls of `Plan::inscribe` — AFTER.
+#[derive(PartialEq, Debug)]
+enum Stage {
+  Before,
+  Guard(String),
+  After,
+}
+
+fn token_after<'a>(msg: &'a str, key: &str) -> Option<&'a str> {
+  let rest = &msg[msg.find(key)? + key.len()..];
+  rest.split(|ch: char| ch.is_whitespace()).next()
+}
+
+fn guard_stage(msg: &str) -> Stage {
+  if msg.contains("wallet contains no cardinal utxos") {
+    return Stage::Guard("err no-cardinals".into());
+  }
+  if msg.contains("reinscribe flag set but this would not be a reinscription") {
+    return Stage::Guard("err not-a-reinscription".into());
+  }
+  if msg.contains("already inscribed") {
+    // "sat at <satpoint> already inscribed" | "utxo <outpoint> with sat <satpoint> already inscribed with …"
+    let hit = token_after(msg, " with sat ").or_else(|| token_after(msg, "sat at ")).unwrap_or("?");
+    return Stage::Guard(format!("err already-inscribed {hit}"));
+  }
+  let after = [
+    "outgoing satpoint",
+    "below dust value",
+    "would be dust",
+    "enough cardinal UTXOs",
+    "without also sending inscription",
+    "duplicate input address",
+    "arithmetic overflow calculating value",
+    "runestone greater than maximum",
+    "reveal transaction weight greater",
+    "Failed to sign reveal transaction",
+    "Failed to send reveal transaction",
+  ];
+  if after.iter().any(|k| msg.contains(k)) { Stage::After } else { Stage::Before }
+}
+
+/// the satpoint the commit actually sends to the reveal: the sat at the first position of the
+/// commit output (`commit:vout`), located in the commit's inputs by their pre-state values
+fn committed_satpoint(commit: &Transaction, vout: u32, v: &GuardView) -> String {
+  let start: u64 = commit.output.iter().take(vout as usize).map(|o| o.value.to_sat()).sum();
+  let mut acc = 0u64;
+  for i in &commit.input {
+    let Some((value, _, _)) = v.utxos.get(&i.previous_output) else {
+      return "unknown-input".into();
+    };
+    if start < acc + value {
+      return SatPoint { outpoint: i.previous_output, offset: start - acc }.to_string();
+    }
+    acc += value;
+  }
+  "beyond-inputs".into()
 }
 
 fn parse_output(s: &str) -> Option<batch::Output> {
@@ -453,6 +570,128 @@ fn run_batch(s: &mut Setup, cap: &mut StdoutCapture, file: &std::path::Path, c: 
   }
 }
 
+/// the `batch.guard` line of one dry run of the real command
+fn emit_guard_dry(dry: &Result<batch::Output, String>, c: &Case, view: &GuardView, out: &mut Streams, dist: &mut Dist) {
+  match dry {
+    Ok(o) => {
+      // which sat the planner chose, read off the commit PSBT
+      let commit = o.commit_psbt.as_ref().and_then(|p| ord::base64_decode(p).ok()).and_then(|b| bitcoin::Psbt::deserialize(&b).ok());
+      let reveal = o.reveal_psbt.as_ref().and_then(|p| ord::base64_decode(p).ok()).and_then(|b| bitcoin::Psbt::deserialize(&b).ok());
+      let answer = match (commit, reveal.as_ref().and_then(|r| r.unsigned_tx.input.last())) {
+        (Some(cp), Some(ci)) if ci.previous_output.txid == cp.unsigned_tx.compute_txid() => {
+          format!("ok {}", committed_satpoint(&cp.unsigned_tx, ci.previous_output.vout, view))
+        }
+        _ => "ok no-psbt".into(),
+      };
+      out.emit(&guard_request(c, view, "dry"), &answer);
+      dist.hit(if c.same_sat_satpoint.is_some() { "guard_ok_explicit" } else { "guard_ok_auto" });
+      if c.reinscribe {
+        dist.hit("guard_ok_reinscription");
+      }
+    }
+    Err(e) => match guard_stage(e) {
+      Stage::Before => dist.hit("guard_not_reached"),
+      Stage::Guard(answer) => {
+        dist.hit(&format!("guard_{}", answer.split(' ').take(2).collect::<Vec<_>>().join("_")));
+        if answer.starts_with("err already-inscribed") {
+          dist.hit(if e.contains(" with sat ") { "guard_bail_other_sat_in_utxo" } else { "guard_bail_sat_itself" });
+        }
+        out.emit(&guard_request(c, view, "dry"), &answer);
+      }
+      Stage::After => {
+        dist.hit(&format!("guard_ok_later_{}", classify(e)));
+        out.emit(&guard_request(c, view, "later"), "ok-later");
+      }
+    },
+  }
+}
+
+/// Probes of the commit guard on the current wallet: minimal `same-sat` batches (one inscription,
+/// no parents), DRY RUN only, one per kind of answer the guard can give — including the order in
+/// which the loop meets the inscribed sats of an output that carries several.
+fn guard_probe(s: &mut Setup, cap: &mut StdoutCapture, rng: &mut Rng, out: &mut Streams, dist: &mut Dist, tag: u64, snap: &[WOut]) {
+  let inscribed: Vec<&WOut> = snap.iter().filter(|o| !o.ins.is_empty()).collect();
+  let single: Vec<&WOut> = inscribed.iter().cloned().filter(|o| o.ins.len() == 1).collect();
+  let multi: Vec<&WOut> = inscribed.iter().cloned().filter(|o| o.ins.iter().any(|(sp, _)| *sp != o.ins[0].0)).collect();
+  let cardinals: Vec<&WOut> = snap.iter().filter(|o| o.ins.is_empty() && o.runes == 0 && !o.locked && o.value > 0).collect();
+  let odd: Vec<&WOut> = snap.iter().filter(|o| o.ins.is_empty() && (o.runes > 0 || o.locked)).collect();
+  let free = |o: &WOut, rng: &mut Rng| -> Option<SatPoint> {
+    let ks: Vec<u64> = [0u64, 1, 2_999, 5_001, o.value - 1].into_iter().filter(|k| *k < o.value && !o.ins.iter().any(|(sp, _)| sp.offset == *k)).collect();
+    (!ks.is_empty()).then(|| SatPoint { outpoint: o.op, offset: *rng.pick(&ks) })
+  };
+  let mut lock_all = false;
+  let (kind, satpoint, reinscribe): (&str, Option<SatPoint>, bool) = match rng.below(12) {
+    0 if !cardinals.is_empty() => ("reinscribe_cardinal", Some(SatPoint { outpoint: rng.pick(&cardinals).op, offset: *rng.pick(&[0u64, 7]) }), true),
+    1 => ("reinscribe_auto", None, true),
+    2 if !single.is_empty() => ("inscribed_sat_no_flag", Some(rng.pick(&single).ins[0].0), false),
+    3 if !inscribed.is_empty() => match { let o = *rng.pick(&inscribed); free(o, rng) } {
+      Some(sp) => ("other_sat_of_inscribed_output", Some(sp), rng.chance(1, 2)),
+      None => ("auto", None, false),
+    },
+    4 | 5 if !multi.is_empty() => {
+      let o = *rng.pick(&multi);
+      ("shared_output_no_flag", Some(rng.pick(&o.ins).0), false)
+    }
+    6 | 7 if !multi.is_empty() => {
+      let o = *rng.pick(&multi);
+      ("shared_output_reinscribe", Some(rng.pick(&o.ins).0), true)
+    }
+    8 if !single.is_empty() => ("reinscribe_single", Some(rng.pick(&single).ins[0].0), true),
+    9 if !odd.is_empty() => ("explicit_runic_or_locked", Some(SatPoint { outpoint: rng.pick(&odd).op, offset: 0 }), false),
+    10 => match rng.below(2) {
+      0 => ("explicit_unknown_output", Some(SatPoint { outpoint: OutPoint { txid: s.foreign_id.txid, vout: 0 }, offset: 0 }), false),
+      _ if !cardinals.is_empty() => {
+        let o = *rng.pick(&cardinals);
+        ("explicit_out_of_range", Some(SatPoint { outpoint: o.op, offset: o.value }), false)
+      }
+      _ => ("auto", None, false),
+    },
+    11 => {
+      lock_all = true;
+      ("all_cardinals_locked", None, false)
+    }
+    _ => ("auto", None, false),
+  };
+  dist.hit(&format!("probe_{kind}"));
+  let c = Case {
+    mode: Mode::SameSat,
+    n: 1,
+    parents: Vec::new(),
+    postage: None,
+    satpoints: Vec::new(),
+    same_sat_satpoint: satpoint,
+    reinscribe,
+    etching: None,
+    destinations: vec![None],
+    delegate: vec![false],
+    metadata: vec![false],
+    fee_rate: "1",
+  };
+  let saved: Option<BTreeSet<OutPoint>> = lock_all.then(|| {
+    let mut st = s.w.node.core.state();
+    let saved = st.locked.iter().cloned().collect();
+    for o in &cardinals {
+      st.locked.insert(o.op);
+    }
+    saved
+  });
+  let view = guard_view(&s.w);
+  let dir = s.w.scratch.path().to_path_buf();
+  let file = write_batch(&dir, &c, s, 1_000_000 + tag);
+  let dry = run_batch(s, cap, &file, &c, true);
+  if let Some(saved) = saved {
+    let mut st = s.w.node.core.state();
+    st.locked = saved.into_iter().collect();
+  }
+  emit_guard_dry(&dry, &c, &view, out, dist);
+  if let Err(e) = &dry {
+    if classify(e) == "other" || classify(e) == "panic" {
+      out.emit(&format!("batch.unexpected probe {}", hextext(e)), "never");
+    }
+  }
+  assert!(s.w.node.core.state().mempool.is_empty(), "dry run left transactions in the mempool");
+}
+
 fn mine_mempool(w: &World) -> Vec<Transaction> {
   let txs: Vec<Transaction> = std::mem::take(&mut w.node.core.state().mempool);
   w.mine(txs.clone(), &p2tr(202));
@@ -461,6 +700,10 @@ fn mine_mempool(w: &World) -> Vec<Transaction> {
 
 fn one_case(s: &mut Setup, cap: &mut StdoutCapture, rng: &mut Rng, out: &mut Streams, dist: &mut Dist, tag: u64, force: u8) {
   let snap = snapshot(&s.w);
+  if force != 1 {
+    guard_probe(s, cap, rng, out, dist, tag, &snap);
+  }
+  let view = guard_view(&s.w);
   let c = gen_case(rng, s, &snap, dist, force);
   let ops = input_ops(&c);
   let mut reveal_unminable = false;
@@ -468,7 +711,9 @@ fn one_case(s: &mut Setup, cap: &mut StdoutCapture, rng: &mut Rng, out: &mut Str
   let file = write_batch(&dir, &c, s, tag);
   let spec = spec_tokens(&c);
   // ---- dry run
-  match run_batch(s, cap, &file, &c, true) {
+  let dry = run_batch(s, cap, &file, &c, true);
+  emit_guard_dry(&dry, &c, &view, out, dist);
+  match dry {
     Ok(o) => {
       let psbt = o.reveal_psbt.as_ref().and_then(|p| ord::base64_decode(p).ok()).and_then(|b| bitcoin::Psbt::deserialize(&b).ok());
       let (rep, rune) = reported_tokens(&o);
@@ -560,6 +805,18 @@ fn one_case(s: &mut Setup, cap: &mut StdoutCapture, rng: &mut Rng, out: &mut Str
       ptrs
     ),
   );
+  // ---- the commit guard again, on the mined commit: the chosen sat, and (where the index shows it)
+  // whether it was a reinscription: inscription 0 of the reveal carries the `reinscription` charm
+  // iff the sat at the first position of the commit output was inscribed before.  In `satpoints`
+  // mode inscription 0 lands on the first named output instead, so the flag is not observable.
+  {
+    let sat = committed_satpoint(&commit, reveal.input[commit_input].previous_output.vout, &view);
+    let charm = s.w.index().get_inscription_entry(InscriptionId { txid: o.reveal, index: 0 }).unwrap().map(|e| ordinals::Charm::Reinscription.is_set(e.charms));
+    match (c.mode, charm) {
+      (Mode::SatPoints, _) | (_, None) => out.emit(&guard_request(&c, &view, "dry"), &format!("ok {sat}")),
+      (_, Some(re)) => out.emit(&guard_request(&c, &view, "real"), &format!("ok {sat} {}", u8::from(re))),
+    }
+  }
   // ---- reported ids and locations vs the REAL index
   let reported: Vec<String> = o.inscriptions.iter().map(|i| format!("{}@{}", i.id, i.location)).collect();
   let indexed: Vec<String> = o
@@ -669,7 +926,7 @@ fn main() {
         out.emit(&line, "ok");
         one_case(&mut s, &mut cap, &mut prng, &mut out, &mut dist, 0, 1);
         s.w.stop();
-      } else if toks[0] == "batch.layout.dry" || toks[0].starts_with("batch.oracle.") {
+      } else if toks[0] == "batch.layout.dry" || toks[0] == "batch.guard" || toks[0].starts_with("batch.oracle.") {
         // regenerated by the probe line above; stale copies are dropped
       } else {
         out.emit(&line, "replay-unsupported");
